@@ -104,6 +104,8 @@ type State struct {
 	escaped map[string]bool // fresh objects stored somewhere
 	freshArrays []arrRec   // backing arrays allocated by this function
 	exceptFns []func(string) bool // for "?except" entries of wildHavoc: keys these functions accept were NOT havocked
+	navCopies []T // navigators this function obtained from Copy() (its own cursors)
+	lastFrame *Frame // the frame that has just returned (its locals are visible to ensures clauses)
 	wildHavoc []string // key patterns havocked while those keys were not materialised yet
 	navOwner map[string]string // navigator value (term) -> the query value (term) whose Select produced it
 }
@@ -147,6 +149,7 @@ func (s *State) clone() *State {
 	n.allocTypes = append([]allocRec(nil), s.allocTypes...)
 	n.freshArrays = append([]arrRec(nil), s.freshArrays...)
 	n.wildHavoc = append([]string(nil), s.wildHavoc...)
+	n.navCopies = append([]T(nil), s.navCopies...)
 	n.exceptFns = append([]func(string) bool(nil), s.exceptFns...)
 	n.navOwner = make(map[string]string, len(s.navOwner))
 	for k, v := range s.navOwner {
